@@ -69,6 +69,10 @@ was strengthened (never by loosening a check):
 | C02-7 (V9 header count 0 read as "until the end of the buffer") | a packet's own header was not held against the number of flowsets reported for it | `Accounting`: a V9 packet has at most `count` flowsets; count-0 headers followed by flowset-shaped bytes in `hostile`; header-only packets in conformant streams |
 | C16-6 again (found by 1 session in 100, lost when the generators changed) | detection depended on a lucky merge order | `lagged_twins_session`: the second parser runs 2-3 calls behind the first over a stream that redefines an id between two data packets |
 | C03-7, C10-8 (protocol byte 255 / negative 3-byte value panic) - caught by C01 | a call or conversion that does not return was only C01's business | it is also reported under the decode / export / common / JSON property of the packet kinds involved |
+| C07-7 (a "template awaited" memo that the options-template path never clears: the late template never makes the data decode) | no driver sent data ahead of its template and then the template | `late_template_session` (data, template, the same data bytes; V9/IPFIX x data/options) with round `late`: if the reference decodes the third call, so must the implementation (C07, last clause) |
+| C07-8 (IPFIX set id 255, the lowest id looked up as data, treated as a template set) | no driver used id 255; the C07 attribution wanted the unknown set reported *as data* | id 255 unknown / defined / used in `hostile` (now also a C07 driver); any reported set carrying the id of a set the reference omits is C07's |
+| C11-8 (an IPFIX message whose header equals the previous one's in the same call is dropped as a retransmission) | header fields were always random | twin header-only messages in chained sequences; export time / sequence / domain repeated now and then |
+| C12-7 (sorted copy of the allowed set refreshed only when its size changes) | the set was only ever narrowed or widened | a member of the set is swapped for another number between two calls |
 | C08-6 (thread-local export scratch keeps the surplus records of an over-full structure) | only in-domain structures were exported | structures with count != number of records exported in between (no verdict on them) |
 
 | change | what it does | what it needs to manifest | confirmed | checks that report a VIOLATION | own property's check |
